@@ -18,3 +18,11 @@ package segment
 //@ lemma betaStepAgainst C22: forall p *PathSegment, s0 uint16, k int :: k >= 0 && k < 1000000 ==> betaAt(p, s0, k+1)^sigma(p, k) == betaAt(p, s0, k)
 //@ # peering hops: the peer hop field of entry k and the hop field of entry k+1 are validated from the same value
 //@ lemma betaPeer C22: forall p *PathSegment, s0 uint16, k int :: k >= 0 && k < 1000000 ==> betaAt(p, s0, k)^sigma(p, k) == betaAt(p, s0, k+1)
+
+//@ # ---- Segments.FirstIAs (used by the path lookup, C30): isFirstIA(s, x) names "x is the first ISD-AS of some
+//@ # segment in s"; FirstIAs lists such ISD-ASes (its de-duplication over extractIAs is not interpreted)
+//@ spec func isFirstIA(s Segments, x addr.IA) bool uninterpreted
+//@ func (Segments).FirstIAs
+//@   trusted
+//@   modifies nothing
+//@   ensures forall i int :: 0 <= i && i < len(result) ==> isFirstIA(segs, result[i])
